@@ -317,7 +317,12 @@ class Machine:
                 logging.warning(fmt.format(name))
             else:
                 color = light.get_color()
-                self._color_to_reg(self._assure_units(color))
+                if color is None or any(value < 0 for value in color):
+                    # The light gave no answer; the settings stay as they are.
+                    logging.warning(
+                        'Unable to retrieve color from "{}".'.format(name))
+                else:
+                    self._color_to_reg(self._assure_units(color))
 
     def _ctx(self) -> None:
         self._call_stack.new_frame()
